@@ -216,43 +216,50 @@ def expected(c):
 '''
     env2 = {}
     exec(CP, env2)
+    # scenario -> (prepare the receiving manager, bindings expression or None, target container, root reference)
     scen = {
-        "same label": "c2 = copy.deepcopy(c0); m2 = xdeps.Manager(); r2 = m2.ref(c2, 'ref'); m2.copy_expr_from(m, 'ref'); tgt = c2; root = r2",
-        "rebound to nested": "c2 = {'deep': {'er': copy.deepcopy(c0)}}; m2 = xdeps.Manager(); r2 = m2.ref(c2, 'ref'); m2.copy_expr_from(m, 'ref', bindings={'ref': r2['deep']['er']}); tgt = c2['deep']['er']; root = r2['deep']['er']",
-        "rebound to other label": "c2 = copy.deepcopy(c0); m2 = xdeps.Manager(); r2 = m2.ref(c2, 'other'); m2.copy_expr_from(m, 'ref', bindings={'ref': r2}); tgt = c2; root = r2",
-        "rebound label containing label": "c2 = {'ref_a': copy.deepcopy(c0)}; m2 = xdeps.Manager(); r2 = m2.ref(c2, 'ref_ref'); m2.copy_expr_from(m, 'ref', bindings={'ref': r2['ref_a']}); tgt = c2['ref_a']; root = r2['ref_a']",
+        "same label": ("c2 = copy.deepcopy(c0); m2 = xdeps.Manager(); r2 = m2.ref(c2, 'ref')", None, "c2", "r2"),
+        "rebound to nested": ("c2 = {'deep': {'er': copy.deepcopy(c0)}}; m2 = xdeps.Manager(); r2 = m2.ref(c2, 'ref')", "{'ref': r2['deep']['er']}",
+                              "c2['deep']['er']", "r2['deep']['er']"),
+        "rebound to other label": ("c2 = copy.deepcopy(c0); m2 = xdeps.Manager(); r2 = m2.ref(c2, 'other')", "{'ref': r2}", "c2", "r2"),
+        "rebound via the Ref object as binding key": ("c2 = {'deep': {'er': copy.deepcopy(c0)}}; m2 = xdeps.Manager(); r2 = m2.ref(c2, 'tgt')",
+                                                      "{r: r2['deep']['er']}", "c2['deep']['er']", "r2['deep']['er']"),
+        "Ref object key, same label": ("c2 = copy.deepcopy(c0); m2 = xdeps.Manager(); r2 = m2.ref(c2, 'ref')", "{r: r2}", "c2", "r2"),
+        "rebound to nested, receiver has its own top-level definitions": (
+            "c2 = copy.deepcopy(c0); c2['deep'] = copy.deepcopy(c0); m2 = xdeps.Manager(); r2 = m2.ref(c2, 'ref'); r2['c'] = r2['a'] * 1; r2['out'] = r2['b'] * 1",
+            "{'ref': r2['deep']}", "c2['deep']", "r2['deep']"),
+        "rebound label containing label": ("c2 = {'ref_a': copy.deepcopy(c0)}; m2 = xdeps.Manager(); r2 = m2.ref(c2, 'ref_ref')", "{'ref': r2['ref_a']}",
+                                           "c2['ref_a']", "r2['ref_a']"),
     }
-    for name, setup in scen.items():
+    for name, (prep, bindsrc, tgtsrc, rootsrc) in scen.items():
         for overwrite in (True, False):
             c0, m0, r0 = env2["src"]()
-            body = f"c0, m, r = src()\n{setup}\n"
+            steps = [prep, f"root = {rootsrc}; tgt = {tgtsrc}"]
             if not overwrite:
-                body += "root['c'] = root['a'] - root['b']\nm2.copy_expr_from(m, 'ref', **({'bindings': BIND} if BIND else {}), overwrite=False)\n"
+                steps.append("root['c'] = root['a'] - root['b']")           # an existing definition that must be kept
+            steps.append(f"m2.copy_expr_from(m, 'ref', bindings={bindsrc}, overwrite={overwrite})")
+            body = "c0, m, r = src()\n" + "\n".join(steps) + "\n"
             loc = dict(c0=c0, m=m0, r=r0, copy=copy, xdeps=xdeps)
             rac.case((name, overwrite), sample=dict(scenario=name, overwrite=overwrite))
             try:
-                exec(setup, loc)
+                for st_ in steps:
+                    exec(st_, loc)
                 m2, tgt, root = loc["m2"], loc["tgt"], loc["root"]
-                if not overwrite:
-                    root["c"] = root["a"] - root["b"]
-                    bind = None
-                    if "bindings=" in setup:
-                        bind = eval(setup.split("bindings=")[1].split(")")[0], loc)
-                    m2.copy_expr_from(m0, "ref", bindings=bind, overwrite=False)
                 # the copied definitions are exactly those obtained by defining the same expressions directly on the target
                 loc3 = dict(c0=c0, m=m0, r=r0, copy=copy, xdeps=xdeps)
-                exec(setup.replace("m2.copy_expr_from", "(lambda *a, **k: None)"), loc3)
-                if not overwrite:
-                    loc3["root"]["c"] = loc3["root"]["a"] - loc3["root"]["b"]
-                    saved = loc3["root"]["c"]._expr
+                exec(prep, loc3)
+                exec(f"root = {rootsrc}; tgt = {tgtsrc}", loc3)
                 env2["define"](loc3["root"])
                 if not overwrite:
-                    loc3["root"]["c"] = saved
+                    loc3["root"]["c"] = loc3["root"]["a"] - loc3["root"]["b"]
+                scr = PRELUDE + CP + body + "c0b, mb, rb = src()\nc0 = c0b\n" + prep.replace("m2", "m3").replace("r2", "r3").replace("c2", "c3") + \
+                    f"\nroot3 = {rootsrc.replace('r2', 'r3')}\ndefine(root3)\n" + ("root3['c'] = root3['a'] - root3['b']\n" if not overwrite else "") + \
+                    "print(sorted(m2.dump())); print(sorted(m3.dump()))\nassert sorted(m2.dump()) == sorted(m3.dump())\n"
                 if sorted(m2.dump()) != sorted(loc3["m2"].dump()):
                     rac.fail(f"copy-defs {name} {overwrite}", f"C11 copy_expr_from ({name}, overwrite={overwrite}): copied definitions {sorted(m2.dump())} != "
-                             f"the source's definitions on the target {sorted(loc3['m2'].dump())}", PRELUDE + CP + body.replace("BIND", "None"), "Manager.copy_expr_from")
+                             f"the source's definitions on the target {sorted(loc3['m2'].dump())}", scr, "Manager.copy_expr_from")
                     continue
-                if "nested" in name or "containing" in name:
+                if "nested" in name or "containing" in name or "binding key" in name:
                     continue        # value propagation among members of one nested container is subject to known finding K1 (C01)
                 root["a"] = 11.0
                 root["k"]["ref"] = -1.0
@@ -263,15 +270,12 @@ def expected(c):
                 if not overwrite:
                     want["c"] = want["a"] - want["b"]
                     want["d"] = want["c"] + want["ref_a"]
-                scr = PRELUDE + CP + body.replace("BIND", setup.split("bindings=")[1].split(")")[0] if "bindings=" in setup else "None") + \
-                    "root['a'] = 11.0; root['k']['ref'] = -1.0; root['sub']['a'] = 0.5\nwant = copy.deepcopy(c0); want['a'], want['k']['ref'], want['sub']['a'] = 11.0, -1.0, 0.5\nwant = expected(want)\n" + \
-                    ("want['c'] = want['a'] - want['b']; want['d'] = want['c'] + want['ref_a']\n" if not overwrite else "") + "print(tgt); print(want)\nassert tgt == want\n"
                 if tgt != want:
-                    rac.fail(f"copy {name} {overwrite}", f"C11 copy_expr_from ({name}, overwrite={overwrite}): copied manager computes {tgt}, the definitions give {want}", scr,
-                             "Manager.copy_expr_from")
+                    rac.fail(f"copy {name} {overwrite}", f"C11 copy_expr_from ({name}, overwrite={overwrite}): copied manager computes {tgt}, the definitions give {want}",
+                             PRELUDE + CP + body + "root['a'] = 11.0; root['k']['ref'] = -1.0; root['sub']['a'] = 0.5\nprint(tgt)\n", "Manager.copy_expr_from")
             except Exception as ex:     # noqa
                 rac.fail(f"copy {name} {overwrite}", f"C11 copy_expr_from ({name}, overwrite={overwrite}) raised {type(ex).__name__}: {ex}",
-                         PRELUDE + CP + body.replace("BIND", "None"), "Manager.copy_expr_from")
+                         PRELUDE + CP + body, "Manager.copy_expr_from")
     # a binding whose source is a nested reference (text substitution path)
     c0, m0, r0 = env2["src"]()
     rac.case("nested-source binding", sample="bindings={ref['sub']: new['other']}")
